@@ -192,12 +192,17 @@ __strpd_card(struct strpd_s *d, const char *sp, struct dt_spec_s s, char **ep)
 	case DT_SPFL_UNK:
 		break;
 	case DT_SPFL_N_DSTD:
-		d->y = strtoi_lim(sp, &sp, DT_MIN_YEAR, DT_MAX_YEAR);
-		sp++;
-		d->m = strtoi_lim(sp, &sp, 0, GREG_MONTHS_P_YEAR);
-		sp++;
+		if ((d->y = strtoi_lim(
+			     sp, &sp, DT_MIN_YEAR, DT_MAX_YEAR)) < 0 ||
+		    *sp++ != '-') {
+			break;
+		} else if ((d->m = strtoi_lim(
+				    sp, &sp, 0, GREG_MONTHS_P_YEAR)) < 0 ||
+			   *sp++ != '-') {
+			break;
+		}
 		d->d = strtoi_lim(sp, &sp, 0, 31);
-		res = 0 - (d->y < 0 || d->m < 0 || d->d < 0);
+		res = 0 - (d->d < 0);
 		break;
 	case DT_SPFL_N_YEAR:
 		switch (s.abbr) {
